@@ -13,7 +13,6 @@ import (
 	"strings"
 	"time"
 
-	"gitee.com/xuesongtao/protoc-go-valid/file"
 	"vmon/internal/core"
 	"vmon/internal/gen"
 	"vmon/internal/ref"
@@ -34,25 +33,46 @@ func runInjector(c *core.Ctx, mode, dir string, names []string) injRun {
 	r := injRun{Mode: mode}
 	switch mode {
 	case "lib":
-		for _, n := range names {
-			p := filepath.Join(dir, n)
-			if !strings.HasSuffix(p, ".go") {
-				continue
-			}
-			func() {
-				defer func() {
-					if x := recover(); x != nil {
-						r.Crashed = true
-						r.Output += fmt.Sprintf("panic in library call on %s: %v\n", n, x)
-					}
-				}()
-				areas, err := file.ParseFile(p)
-				if err != nil {
-					return
-				}
-				_ = file.WriteFile(p, areas)
-			}()
+		// the library route lives in a helper program (cmd/libinject) built by run.sh; when it could not be
+		// built against the repository (the file package's signatures changed) the files go through -f
+		helper := os.Getenv("VMON_LIBINJECT")
+		if helper == "" {
+			c.Res.Count("lib_route_unavailable_used_-f")
+			return runInjector(c, "-f", dir, names)
 		}
+		args := []string{}
+		for _, n := range names {
+			if strings.HasSuffix(n, ".go") {
+				args = append(args, filepath.Join(dir, n))
+			}
+		}
+		if len(args) == 0 {
+			return r
+		}
+		cmd := exec.Command(helper, args...)
+		var buf bytes.Buffer
+		cmd.Stdout, cmd.Stderr = &buf, &buf
+		done := make(chan error, 1)
+		if err := cmd.Start(); err != nil {
+			return injRun{Mode: mode, ExitCode: -1, Output: err.Error(), Crashed: true}
+		}
+		go func() { done <- cmd.Wait() }()
+		select {
+		case err := <-done:
+			r.Output = buf.String()
+			if err != nil {
+				r.Crashed = true // the helper recovers panics; dying all the same is a fatal error of the runtime
+				r.Output += "\nlibrary helper died: " + err.Error()
+			}
+		case <-time.After(120 * time.Second):
+			cmd.Process.Kill()
+			<-done
+			return injRun{Mode: mode, ExitCode: -2, Output: "watchdog: library helper did not finish within 120s"}
+		}
+		if strings.Contains(r.Output, "panic in library call") || strings.Contains(r.Output, "fatal error:") {
+			r.Crashed = true
+		}
+		r.Output = trunc(r.Output, 3000)
 		return r
 	case "-f":
 		for _, n := range names {
@@ -253,7 +273,7 @@ func c06Batch(c *core.Ctx, rng *rand.Rand, batch int, withFree bool, oddDir bool
 		if withFree && rng.Intn(7) == 0 {
 			// idempotence only (C07): the parseable-but-awkward shapes of C19 (grouped and local type
 			// declarations, fields without a literal, malformed @tag text, backquote values ...)
-			k := []string{"no-literal", "malformed-tag", "grouped", "grouped", "interpreted-literal", "empty-literal", "backquote-value", "cr-in-literal", "crlf", "bom", "bom", "multiline-block", "odd-literal", "odd-literal"}[rng.Intn(14)]
+			k := []string{"no-literal", "malformed-tag", "grouped", "grouped", "interpreted-literal", "empty-literal", "backquote-value", "cr-in-literal", "crlf", "bom", "bom", "multiline-block", "odd-literal", "odd-literal", "line-directive"}[rng.Intn(15)]
 			src, cl = c19Awkward(rng, k), "AWK"+k
 		}
 		name := fmt.Sprintf("f%02d_%s.pb.go", i, strings.ToLower(cl))
@@ -458,6 +478,14 @@ func c19Awkward(rng *rand.Rand, kind string) string {
 	base := "package pb\n\ntype Inner struct {\n\tID int64 `json:\"id\"`\n}\n\n"
 	good := "type Good struct {\n\tName string `json:\"name\"` // 姓名 @tag valid:\"required\"\n}\n\n"
 	switch kind {
+	case "line-directive":
+		// positions after a //line directive carry another file name (a sibling that exists, one that does
+		// not, no name at all); the bytes to rewrite are still this file's
+		d := []string{"//line grammar.y:12", "//line zz_long.y:1", "/*line grammar.y:3:4*/", "//line :7", "//line no_such_file.y:100", "//line zz_long.y:40:2"}[rng.Intn(6)]
+		if rng.Intn(2) == 0 {
+			return base + d + "\ntype A struct {\n\tName string `json:\"name\"` // 姓名 @tag valid:\"required\"\n\tAge  int32 `json:\"age\"` // @tag valid:\"to=1~150\" form:\"age\"\n}\n\n" + good
+		}
+		return base + "type A struct {\n\tName string `json:\"name\"` // 姓名 @tag valid:\"required\"\n" + d + "\n\tAge  int32 `json:\"age\"` // @tag valid:\"to=1~150\" form:\"age\"\n}\n\n" + good
 	case "no-literal":
 		return base + "type A struct {\n\tName string // 姓名 @tag valid:\"required\"\n\tAge  int32 `json:\"age\"` // @tag valid:\"to=1~150\"\n}\n\n" + good
 	case "malformed-tag":
@@ -522,7 +550,7 @@ func runC19(c *core.Ctx) {
 	rng := c.Rng("dirs")
 	D := c.Pick(100, 2000)
 	modes := []string{"-d", "-p", "-f", "-d", "-p*"}
-	awk := []string{"no-literal", "malformed-tag", "grouped", "interpreted-literal", "empty-literal", "backquote-value", "cr-in-literal", "crlf", "bom", "multiline-block"}
+	awk := []string{"no-literal", "malformed-tag", "grouped", "interpreted-literal", "empty-literal", "backquote-value", "cr-in-literal", "crlf", "bom", "multiline-block", "line-directive"}
 	for d := 0; d < D; d++ {
 		dir := filepath.Join(c.WorkDir, fmt.Sprintf("d%d", d))
 		if m := modes[d%len(modes)]; (m == "-d" || m == "-f") && d%4 == 1 {
@@ -636,6 +664,15 @@ func runC19(c *core.Ctx) {
 				e = c19Entry{Name: name + ".go", Kind: "dir-named-go", IsDir: true, SubFiles: map[string][]byte{"k.txt": []byte("@tag valid:\"required\"")}}
 			}
 			entries = append(entries, e)
+		}
+		for _, e := range entries {
+			if e.Kind == "awkward|line-directive" {
+				// the siblings the directives name: a short one and one longer than any offset in the Go file
+				entries = append(entries, c19Entry{Name: "grammar.y", Kind: "nongo", Content: []byte("%%\n")},
+					c19Entry{Name: "zz_long.y", Kind: "nongo", Content: []byte(strings.Repeat("rule : token `x` ; // @tag valid:\"required\"\n", 60))})
+				res.Count("dirs_with_line_directive_siblings")
+				break
+			}
 		}
 		if d%6 == 5 {
 			// a crowd of entries that are not Go files (notes, data, images): each is looked at and left alone
